@@ -71,14 +71,29 @@ static std::set<std::string>& reported() {
   static std::set<std::string> s;
   return s;
 }
+// Inputs are enumerated shortest-first, but 16 workers start on 16 different
+// chunks at once; so that the report names the simplest counter-example, the
+// worker that first sees a key re-runs the inputs below the failing one (at
+// most SCAN of them) and quotes the smallest that fails with the same key.
 static std::function<void(uint64_t, bool)>
 once(std::function<void(uint64_t, bool)> f) {
   return [f](uint64_t i, bool th) {
     try {
       f(i, th);
     } catch (const sx::Fail& e) {
-      if (reported().insert(e.key).second)
-        throw;
+      if (!reported().insert(e.key).second)
+        return;
+      const uint64_t SCAN = 400000;
+      for (uint64_t j = 0; j < i && j < SCAN; ++j) {
+        try {
+          f(j, th);
+        } catch (const sx::Fail& e2) {
+          if (e2.key == e.key)
+            throw sx::Fail{e.key, e.msg + " || smallest failing input is #" +
+                                      std::to_string(j) + ": " + e2.msg};
+        }
+      }
+      throw;
     }
   };
 }
@@ -234,10 +249,10 @@ struct ArithSnap {
 // update(T&&), getLocal() modified in place}
 template <class T, int FORMS>
 struct AccSpec : ArithSnap<T> {
-  static std::string name() {
-    return std::string("GAccumulator<") + TN<T>::n() + ">" +
-           (FORMS ? " update-forms" : "");
+  static std::string comp() {
+    return std::string("GAccumulator<") + TN<T>::n() + ">";
   }
+  static std::string name() { return comp() + (FORMS ? " update-forms" : ""); }
   static const std::vector<T>& vals() {
     static const std::vector<T> v = Vals<T>::sum();
     return v;
@@ -287,10 +302,9 @@ struct AccSpec : ArithSnap<T> {
     for (int i = 0; i < q.n; ++i)
       if (FORMS == 0 && q.sym[i] % nforms() == 1)
         minus = true;
-    return std::string("GAccumulator<") + TN<T>::n() + ">:" +
-           (minus ? "operator-=:wrong-sum" : "wrong-sum");
+    return comp() + ":" + (minus ? "operator-=:wrong-sum" : "wrong-sum");
   }
-  static int maxlen(bool th) { return FORMS ? (th ? 4 : 3) : 4; }
+  static int maxlen(bool th) { return FORMS ? (th ? 4 : 3) : (th ? 5 : 4); }
 };
 
 template <class T, bool MAX>
@@ -298,6 +312,7 @@ struct MinMaxSpec : ArithSnap<T> {
   static std::string name() {
     return std::string(MAX ? "GReduceMax<" : "GReduceMin<") + TN<T>::n() + ">";
   }
+  static std::string comp() { return name(); }
   static const std::vector<T>& vals() {
     static const std::vector<T> v = Vals<T>::ext();
     return v;
@@ -337,6 +352,7 @@ struct LogicalSpec : ArithSnap<bool> {
   static std::string name() {
     return AND ? "GReduceLogicalAnd" : "GReduceLogicalOr";
   }
+  static std::string comp() { return name(); }
   static int nsym() { return 2; }
   // simplest first: the value that leaves the result unchanged
   static bool val(int s) { return AND ? s == 0 : s == 1; }
@@ -394,6 +410,7 @@ struct MoId {
 struct MoveOnlySpec {
   using Snap = std::vector<int>;
   static std::string name() { return "Reducible<move-only multiset>"; }
+  static std::string comp() { return name(); }
   static int nsym() { return 3; }
   static std::string symname(int s) {
     return "update(Bag{" + std::to_string(s + 1) + "})";
@@ -434,6 +451,7 @@ struct IdZeroU {
 };
 struct UserOrSpec : ArithSnap<unsigned> {
   static std::string name() { return "Reducible<unsigned,bit_or,0>"; }
+  static std::string comp() { return name(); }
   static const std::vector<unsigned>& vals() {
     static const std::vector<unsigned> v = {0u, 1u, 2u, 4u, 0x80000000u};
     return v;
@@ -466,6 +484,7 @@ struct IdZeroI {
 struct UserFnMaxSpec : ArithSnap<int> {
   using Fn = std::function<const int&(const int&, const int&)>;
   static std::string name() { return "Reducible<int,std::function max,0>"; }
+  static std::string comp() { return name(); }
   static const std::vector<int>& vals() {
     static const std::vector<int> v = {0, 1, 2,
                                        std::numeric_limits<int>::max()};
@@ -508,7 +527,7 @@ static void red_run(uint64_t idx, bool) {
   Seq q = seq_decode(idx, S::nsym());
   typename S::Snap want{};
   bool have            = S::fold(q, want);
-  const std::string nm = S::name();
+  const std::string nm = S::comp();
   const std::string in = seq_str<S>(q);
   long live0           = S::live();
   typename S::Snap v1{};
@@ -606,12 +625,12 @@ static sx::EnumCase red_case(int weight) {
 enum { A_MAX, A_MIN, A_ADD, A_SUB, N_MAX, N_MIN, N_ADD, N_SET, NAOPS };
 static const char* AOPNAME[] = {"atomicMax", "atomicMin", "atomicAdd",
                                 "atomicSubtract", "max", "min", "add", "set"};
-static int atomic_maxlen(bool th) { return th ? 3 : 2; }
+static int atomic_maxlen(bool) { return 3; }
 
 struct AtomIn {
   int init;
   int n = 0;
-  int op[4], val[4];
+  int op[6], val[6];
 };
 template <class T>
 static AtomIn atom_decode(uint64_t idx, int nops) {
@@ -1193,15 +1212,12 @@ static std::string bs_bfs_run(int n, const std::vector<BsOp>& ops,
       break;
     }
     bs_compare(bs, m, "after " + pre);
-    // non-trivial: bits set in two different 64-bit words at the same time
-    int words = 0;
-    for (int w = 0; w < (n + 63) / 64; ++w) {
-      bool any = false;
-      for (int i = w * 64; i < n && i < w * 64 + 64; ++i)
-        any = any || m[i];
-      words += any;
-    }
-    if (words >= 2)
+    // non-trivial: at some point min(2,n) bits were set at the same time (a
+    // single-bit operation then has to preserve its neighbours)
+    int nset = 0;
+    for (int i = 0; i < n; ++i)
+      nset += m[i];
+    if (nset >= std::min(2, n))
       cross = true;
   }
   if (cross)
@@ -1669,6 +1685,87 @@ static sx::EnumCase pt_case() {
   return c;
 }
 
+// ---- 5b. fill_parallel(range, &container::push_back): which thread receives
+// which element is up to do_all, so only the multiset of the contents, the
+// sizes and "every element sits in exactly one row" are determined ------------
+static const int PF_NVAL = 3;
+static int pf_maxlen(bool th) { return th ? 8 : 6; }
+static std::vector<int> pf_decode(uint64_t idx) {
+  std::vector<int> v;
+  uint64_t p = 1;
+  int n      = 0;
+  while (idx >= p) {
+    idx -= p;
+    p *= PF_NVAL;
+    ++n;
+  }
+  for (int i = 0; i < n; ++i) {
+    v.push_back(1 + idx % PF_NVAL);
+    idx /= PF_NVAL;
+  }
+  return v;
+}
+template <class S>
+static void pf_run(uint64_t idx, bool) {
+  rt();
+  std::vector<int> src = pf_decode(idx);
+  const std::string nm = std::string(S::name()) + "::fill_parallel";
+  const std::string in = "values " + ivec_str(src);
+  typename S::C c;
+  using CT = typename S::C::container_type;
+  std::vector<int> want = src;
+  std::sort(want.begin(), want.end());
+  uint64_t o = 0;
+  for (int round = 0; round < 2; ++round) { // round 1: reuse after clear
+    c.fill_parallel(galois::runtime::makeStandardRange(src.begin(), src.end()),
+                    static_cast<void (CT::*)(const int&)>(&CT::push_back));
+    std::vector<int> rows, fwd;
+    unsigned used = 0;
+    for (unsigned t = 0; t < c.numRows(); ++t) {
+      if (!c.get(t).empty()) {
+        ++used;
+        if (t >= g_threads)
+          fail(nm + ":element-in-inactive-thread-row",
+               "round %d: row %u is not empty; %s", round, t, in.c_str());
+      }
+      for (int x : c.get(t))
+        rows.push_back(x);
+    }
+    for (auto it = c.begin_all(), e = c.end_all(); it != e; ++it)
+      fwd.push_back(*it);
+    std::vector<int> sr = rows, sf = fwd;
+    std::sort(sr.begin(), sr.end());
+    std::sort(sf.begin(), sf.end());
+    if (sr != want || sf != want)
+      fail(nm + ":contents-differ-from-sequential",
+           "round %d: rows hold %s, begin_all..end_all yields %s; %s", round,
+           ivec_str(rows).c_str(), ivec_str(fwd).c_str(), in.c_str());
+    if (c.size_all() != src.size() || c.empty_all() != src.empty())
+      fail(nm + ":size_all-wrong", "round %d: size_all() = %zu; %s", round,
+           (size_t)c.size_all(), in.c_str());
+    c.clear_all_parallel();
+    if (!c.empty_all() || c.size_all() != 0)
+      fail(nm + ":clear_all_parallel-leaves-elements", "round %d; %s", round,
+           in.c_str());
+    o = sx::mix(o, sx::hash_str(ivec_str(want)));
+  }
+  // non-trivial: more elements than threads (some thread pushes twice)
+  if (src.size() > g_threads)
+    sx::mark_nontrivial();
+  sx::outcome(o);
+}
+template <class S>
+static sx::EnumCase pf_case() {
+  sx::EnumCase c;
+  c.name     = std::string(S::name()) + " fill_parallel value sequences";
+  c.count    = [](bool th) { return seq_count(PF_NVAL, pf_maxlen(th)); };
+  c.run      = once(pf_run<S>);
+  c.describe = [](uint64_t idx, bool) {
+    return "values " + ivec_str(pf_decode(idx));
+  };
+  return c;
+}
+
 // ---------------------------------------------------------------------------
 int main(int argc, char** argv) {
   setenv("GALOIS_DO_NOT_BIND_THREADS", "1", 1);
@@ -1697,28 +1794,28 @@ int main(int argc, char** argv) {
     c.run    = once_bfs(
         [n, ops](const std::vector<int>& h) { return bs_bfs_run(n, *ops, h); });
     c.quick_depth    = 4;
-    c.thorough_depth = n > 64 ? 6 : 8;
+    c.thorough_depth = 10;
     c.weight         = n > 64 ? 2 : 1;
     bfs.push_back(c);
   }
 
   // ---- reducers ----------------------------------------------------------------
-  en.push_back(red_case<AccSpec<int, 0>>(4));
-  en.push_back(red_case<AccSpec<unsigned, 0>>(8));
-  en.push_back(red_case<AccSpec<float, 0>>(8));
-  en.push_back(red_case<AccSpec<double, 0>>(8));
-  en.push_back(red_case<AccSpec<int, 1>>(2));
-  en.push_back(red_case<AccSpec<unsigned, 1>>(4));
-  en.push_back(red_case<AccSpec<float, 1>>(4));
-  en.push_back(red_case<AccSpec<double, 1>>(4));
-  en.push_back(red_case<MinMaxSpec<int, true>>(4));
-  en.push_back(red_case<MinMaxSpec<unsigned, true>>(2));
-  en.push_back(red_case<MinMaxSpec<float, true>>(6));
-  en.push_back(red_case<MinMaxSpec<double, true>>(6));
-  en.push_back(red_case<MinMaxSpec<int, false>>(4));
-  en.push_back(red_case<MinMaxSpec<unsigned, false>>(2));
-  en.push_back(red_case<MinMaxSpec<float, false>>(6));
-  en.push_back(red_case<MinMaxSpec<double, false>>(6));
+  en.push_back(red_case<AccSpec<int, 0>>(5));
+  en.push_back(red_case<AccSpec<unsigned, 0>>(14));
+  en.push_back(red_case<AccSpec<float, 0>>(14));
+  en.push_back(red_case<AccSpec<double, 0>>(14));
+  en.push_back(red_case<AccSpec<int, 1>>(1));
+  en.push_back(red_case<AccSpec<unsigned, 1>>(3));
+  en.push_back(red_case<AccSpec<float, 1>>(3));
+  en.push_back(red_case<AccSpec<double, 1>>(3));
+  en.push_back(red_case<MinMaxSpec<int, true>>(2));
+  en.push_back(red_case<MinMaxSpec<unsigned, true>>(1));
+  en.push_back(red_case<MinMaxSpec<float, true>>(3));
+  en.push_back(red_case<MinMaxSpec<double, true>>(3));
+  en.push_back(red_case<MinMaxSpec<int, false>>(2));
+  en.push_back(red_case<MinMaxSpec<unsigned, false>>(1));
+  en.push_back(red_case<MinMaxSpec<float, false>>(3));
+  en.push_back(red_case<MinMaxSpec<double, false>>(3));
   en.push_back(red_case<LogicalSpec<true>>(1));
   en.push_back(red_case<LogicalSpec<false>>(1));
   en.push_back(red_case<MoveOnlySpec>(1));
@@ -1766,6 +1863,9 @@ int main(int argc, char** argv) {
   en.push_back(pt_case<PtSetSpec>());
   en.push_back(pt_case<PtMapSpec>());
   en.push_back(pt_case<PtHeapSpec>());
+  en.push_back(pf_case<PtVecSpec>());
+  en.push_back(pf_case<PtDequeSpec>());
+  en.push_back(pf_case<PtListSpec>());
 
   return sx::sx_main(argc, argv, "C15", bfs, en);
 }
